@@ -4,6 +4,7 @@
 #include <mustache/ecs/world.hpp>
 #include <mustache/ecs/entity_manager.hpp>
 #include <mustache/utils/dispatch.hpp>
+#include <mustache/ecs/job.hpp>
 
 #include <algorithm>
 #include <condition_variable>
@@ -230,6 +231,41 @@ struct Agents {
         }
         d.waitForParallelFinish();
         running = false;
+    }
+};
+
+// ------------------------------------------------------------------------------------------------
+// free-running parallel job (real dispatcher schedule): every task records what it did, per thread id
+// ------------------------------------------------------------------------------------------------
+struct RecOp { int kind; uint64_t target; uint64_t result; uint64_t tok; };   // 0 create E, 1 destroynow, 2 assign H
+struct ParJob : public PerEntityJob<ParJob> {
+    uint32_t tasks = 1;
+    EntityManager* em = nullptr;
+    std::map<uint64_t, size_t>* ordinal_of = nullptr;
+    std::mutex m;
+    std::map<uint32_t, std::vector<RecOp>> log;     // thread id -> program order
+    uint64_t tok_base = 0;
+    TasksCount taskCount(World&, uint32_t) const noexcept override { return TasksCount::make(tasks); }
+    void operator()(Entity e, const A&, JobInvocationIndex idx) {
+        size_t ord = ordinal_of->at(e.value);       // read-only while the job runs
+        RecOp r{3, e.value, 0, 0};
+        switch (ord % 4) {
+            case 0: {
+                ComponentIdMask mask; mask.add(ComponentFactory::instance().registerComponent<E>());
+                Entity n = em->create(mask, SharedComponentsInfo{});
+                r = RecOp{0, 0, n.value, 0};
+                break;
+            }
+            case 1: em->destroyNow(e); r.kind = 1; break;
+            case 2:
+                if (!em->hasComponent<H>(e)) { em->assign<H>(e, tok_base + ord); r.kind = 2; r.tok = tok_base + ord; }
+                break;
+            default: break;
+        }
+        if (r.kind != 3) {
+            std::lock_guard<std::mutex> l{m};
+            log[idx.thread_id.toInt()].push_back(r);
+        }
     }
 };
 
@@ -595,6 +631,44 @@ struct Driver {
         out << "end\n";
     }
 
+    // parjob tasks=<n> tok=<base>: a real parallel job over the entities having A; prints the recorded per-thread
+    // logs merged into ONE scripted interleaving (non-create ops in any order, creates in the order of the ids
+    // they were given) so that the model can replay exactly what happened
+    void parjob(const std::vector<std::string>& w) {
+        auto& m = em();
+        if (m.isLocked() || !dispatcher) { out << "bad-op\n"; return; }
+        ParJob job;
+        job.em = &m; job.ordinal_of = &ordinal_of;
+        for (auto& x : w) {
+            if (x.rfind("tasks=", 0) == 0) job.tasks = static_cast<uint32_t>(std::stoul(x.substr(6)));
+            if (x.rfind("tok=", 0) == 0) job.tok_base = std::stoull(x.substr(4));
+        }
+        job.run(*world, JobRunMode::kParallel);
+        out << "ok\n";                                   // the job's lock
+        std::map<uint32_t, size_t> pos;
+        while (true) {
+            // any thread whose next op is not a create goes first; otherwise the create with the smallest id
+            int pick = -1; uint64_t best = ~0ull;
+            for (auto& [tid, v] : job.log) {
+                size_t i = pos[tid];
+                if (i >= v.size()) continue;
+                if (v[i].kind != 0) { pick = static_cast<int>(tid); break; }
+                uint64_t id = Entity::makeFromValue(v[i].result).id().toInt();
+                if (id < best) { best = id; pick = static_cast<int>(tid); }
+            }
+            if (pick < 0) break;
+            const RecOp& r = job.log[static_cast<uint32_t>(pick)][pos[static_cast<uint32_t>(pick)]++];
+            if (r.kind == 0) {
+                out << "X t" << pick << " create E\n" << issue(Entity::makeFromValue(r.result)) << "\n";
+            } else if (r.kind == 1) {
+                out << "X t" << pick << " destroynow " << hname(Entity::makeFromValue(r.target)) << "\nok\n";
+            } else {
+                out << "X t" << pick << " assign " << hname(Entity::makeFromValue(r.target)) << " H " << r.tok << "\nok\n";
+            }
+        }
+        out << "ret=1" << drainSide() << "\n";            // the job's unlock (flush)
+    }
+
     std::map<char, std::vector<const void*>> shared_seen;   // stable class numbers per shared type
     size_t sharedClass(char c, const void* p) {
         auto& v = shared_seen[c];
@@ -613,6 +687,7 @@ struct Driver {
         if (w[0] == "defaultctx") { use_default_ctx = true; out << "ok\n"; return; }
         if (w[0] == "storagecap") { mustache::verif::storage_chunk_capacity = static_cast<uint32_t>(std::stoul(w[1])); out << "ok\n"; return; }
         if (w[0] == "dump") { dump(); return; }
+        if (w[0] == "parjob") { parjob(w); return; }
         if (w[0] == "teardown") {
             if (agents.running) agents.stop(*dispatcher);
             world.reset();
